@@ -1115,7 +1115,10 @@ def is_blocking(node: ast.AST, parent_type: ast.AST = None) -> bool:
             iterator = literal_value(node.iter)
         except ValueError:
             return False
-        if not any(True for _ in iterator):
+        try:
+            if not any(True for _ in iterator):
+                return False
+        except TypeError:  # Not iterable, the loop raises
             return False
 
     if isinstance(node, (ast.For, ast.While)):
